@@ -6,7 +6,7 @@ from .. import tlc
 from ..adapters import framelife as ad
 
 MODULE = "FrameLife"
-ACTIONS = ["Create", "GetWaterfall", "CopyOp", "Mutate", "Slice", "Dedrift", "Integrate", "Save", "Load", "LoadSub"]
+ACTIONS = ["Create", "GetWaterfall", "CopyOp", "PickleOp", "Mutate", "ShiftTs", "Slice", "Dedrift", "Integrate", "Save", "Load", "LoadSub"]
 
 
 def run_for(ctx, pid):
